@@ -17,13 +17,15 @@ Log == ndJsonDeserialize("trace.ndjson")
 VARIABLES l, viol
 tvars == <<vars, l, viol>>
 
-TraceInit == l = 1 /\ viol = {} /\ known = TRUE /\ route = "local" /\ ups = "ok" /\ upgrade = FALSE
+TraceInit == l = 1 /\ viol = {} /\ known = TRUE /\ route = "local" /\ ups = "ok" /\ upgrade = "none"
+
+UpgOf(c) == IF c = "slow-upgrade" THEN "websocket" ELSE IF c = "slow-other-upgrade" THEN "other" ELSE "none"
 
 UpsOf(c) == IF c \in {"absent", "goaway", "close-early", "close-mid", "slow"} THEN c
-            ELSE IF c = "slow-upgrade" THEN "slow" ELSE "ok"
+            ELSE IF c \in {"slow-upgrade", "slow-other-upgrade"} THEN "slow" ELSE "ok"
 
 Violations(e) ==
-  LET want == Answer(e.case # "no-endpoint", UpsOf(e.case), e.case = "slow-upgrade") IN
+  LET want == Answer(e.case # "no-endpoint", UpsOf(e.case), UpgOf(e.case)) IN
   IF e.case = "transparent"
   THEN (IF e.fields # <<>> THEN {"Transparent"} ELSE {})
        \cup (IF e.status # e.wantSt THEN {"StatusPassedThrough"} ELSE {})
@@ -44,7 +46,7 @@ TraceNext ==
      /\ known' = (e.op # "Http" \/ e.case # "no-endpoint")
      /\ route' = IF e.op = "Http" THEN e.route ELSE "local"
      /\ ups' = IF e.op = "Http" THEN UpsOf(e.case) ELSE "ok"
-     /\ upgrade' = (e.op = "Http" /\ e.case = "slow-upgrade")
+     /\ upgrade' = IF e.op = "Http" THEN UpgOf(e.case) ELSE "none"
      /\ viol' = IF e.op = "Http" THEN Violations(e) ELSE {}
 TraceSpec == TraceInit /\ [][TraceNext]_tvars
 
